@@ -381,6 +381,7 @@ def run(ctx: Ctx):
     # the cache key (samples) is stored only together with its value (log-probabilities)
     _cache_key_with_value(ctx, dist, lp, rel)
     _log_prob_input_contract(ctx, dist, lp, rel)
+    _support_table(ctx, rel)
     # every scoring call of the wrapper starts the model from a fresh copy of the initial state (siblings agree)
     lmc = [c for c in own_calls(lp.node) if u(c.func) == "self.random_walk.lm"]
     col.ob("G1", "S4", f"{rel}::SequentialLanguageModelDistribution.log_prob::lm(hist, initial_state.copy())",
@@ -588,6 +589,80 @@ def _log_prob_input_contract(ctx: Ctx, dist, lp, rel: str):
            "log_prob reshapes the value as if it already carried the full batch dimension; validation (and "
            "enumerate_support(expand=False)) only promise that it broadcasts with batch_shape: the support then sums to 0.92 "
            "instead of one, or the reshape raises", rel, lp.line)
+
+
+def _support_table(ctx: Ctx, rel: str):
+    """S4 (continued), as a table: TokenSequenceConstraint.check interpreted over exact values (sa/interp.py + sa/teval.py; nothing is
+    run; fill_after_eos is given by its documented meaning) for five sequences of length three - with and without an eos, with an
+    out-of-vocabulary id before and after the eos - under eos given / not given and step limits below, at and above the length and
+    unbounded. A sequence (the LAST axis of the value; the leading axes are samples and batch) is in the support iff its tokens up to
+    the first eos are in the vocabulary and it is complete: exactly `max_iters` long, or ended by an eos within `max_iters` steps.
+    More sequences are checked than the step limit, so a limit compared with the wrong axis shows."""
+    import numpy as np
+    from sa.interp import Interp
+    from sa.inteval import NotEvaluable
+    from sa.teval import frac_array
+    col, pkg = ctx.col, ctx.pkg
+    f = pkg.func("_decoding::TokenSequenceConstraint.check")
+    where = f"{rel}::{f.qualname}"
+    V, EOS = 5, 4
+    rows = [[1, 4, 9], [1, 2, 3], [7, 4, 0], [4, 4, 4], [0, 4, 0]]
+    vname = [p.name for p in f.params if p.name != "self"][0]
+    bad, n = None, 0
+
+    def fill(arr, eos, dim):
+        a = np.moveaxis(arr, dim, -1).copy()
+        for idx in np.ndindex(a.shape[:-1]):
+            seen = False
+            for k in range(a.shape[-1]):
+                if seen:
+                    a[idx + (k,)] = eos
+                elif a[idx + (k,)] == eos:
+                    seen = True
+        return np.moveaxis(a, -1, dim)
+    try:
+        for eos in (EOS, None):
+            for mi in (2, 3, 4, float("inf")):
+                holder = {}
+
+                def leaf(x, env):
+                    if isinstance(x, ast.Call) and call_name(x).endswith("fill_after_eos"):
+                        it_ = holder["it"]
+                        args = [it_.eval(a_, env) for a_ in x.args]
+                        kws = {k.arg: it_.eval(k.value, env) for k in x.keywords}
+                        names = ["tokens", "eos", "dim", "fill", "value"]
+                        b = dict(zip(names, args))
+                        b.update(kws)
+                        if b.get("fill") is not None or b.get("value") is not None:
+                            raise NotEvaluable("fill_after_eos with fill / value")
+                        return fill(b["tokens"], b["eos"], int(b.get("dim", 0)))
+                    return None
+                it = Interp(leaf=leaf, tensors=True)
+                holder["it"] = it
+                env = {vname: frac_array(rows), "self.eos": eos, "self.max_iters": mi, "self.vocab_size": V}
+                kind, got = it.run(f.node, env)
+                n += 1
+                want = []
+                for r_ in rows:
+                    S = len(r_)
+                    upto = r_ if eos is None or eos not in r_ else r_[: r_.index(eos) + 1]
+                    inv = all(0 <= t_ < V for t_ in upto)
+                    comp = S == mi or (eos is not None and eos in r_ and S <= mi)
+                    want.append(bool(inv and comp))
+                ok = kind == "return" and hasattr(got, "shape") and got.shape == (len(rows),) and [bool(x) for x in got.tolist()] == want
+                if kind == "return" and not hasattr(got, "shape") and isinstance(got, (bool, np.bool_)):
+                    ok = all(w == bool(got) for w in want)  # (a scalar verdict broadcasts)
+                if not ok and bad is None:
+                    bad = (eos, mi, got if kind == "return" else f"raise {got}", want)
+    except NotEvaluable as e:
+        col.undecided(f"{where}: the support check is outside the interpreted fragment ({e})")
+        return
+    col.floor("support_table_rows", n, 8)
+    col.ob("G12", "S4", f"{where}::support-table", bad is None,
+           (f"with eos={bad[0]}, max_iters={bad[1]} the check answers {str(bad[2].tolist() if hasattr(bad[2], 'tolist') else bad[2])[:60]} for the five reference "
+            f"sequences {rows}; by the definition (tokens up to the first eos in the vocabulary, and exactly max_iters long or ended by an eos within "
+            f"max_iters steps along the LAST axis) it is {bad[3]}: paths the walk produces are reported outside the support (or foreign ones inside)") if bad else "",
+           rel, f.line, sample=dict(rows=n))
 
 
 def _mutants():
